@@ -128,10 +128,10 @@ PROPS = {
         module="Prom.Props.C02",
         areas=[dict(area="chist", quick=1500, thorough=80000, classes=["snapshot-not-a-cut", "collect-stuck", "harness-panic"])],
         rule="case = 2-4 real threads (observers, local-histogram batch flushers, 1-3 collectors incl. get_sample_count / get_sample_sum) x 1-3 calls on one Histogram with 1-3 buckets under the deterministic scheduler "
-             "(up to 1 spurious compare-exchange failure); the trace of every atomic / lock operation is replayed by the Lean machine; oracle: each returned snapshot = stats of the observations whose claim precedes that collector's flip in the trace; "
+             "(up to 1 spurious compare-exchange failure; values incl. negative ones); the trace of every atomic / lock operation is replayed by the Lean machine; oracle: each returned snapshot = stats of the observations whose claim precedes that collector's flip in the trace; "
              "non-trivial = at least one collect and one observation/flush in the program; distinct by (program, schedule seed)",
-        trusted=CONC_TB + ["the proof model Prom/HP (inductive Step relation) and the executable replay machine Model/Conc.hStep are two hand-written presentations of the same steps (HP abstracts the float sum loop into one exact addition)",
-                           "float amounts are small integers (exact sums)"],
+        trusted=CONC_TB + ["the replay machine Model/HistMachine is written over the state of the proof model Prom/HP and refines it by theorem (replay_refines); cells are exact integers and runs outside the exact range of the 64-bit encodings are rejected",
+                           "float amounts are small integers (exact sums); f64 rounding of concurrent sums is outside"],
     ),
     "C03": dict(
         module="Prom.Props.C03",
